@@ -371,14 +371,24 @@ Proof.
       * intros H. exists t, L. split; [lia|]. split; [lia|].
         assert (Hid : (L * vx - t * dx) * (L * vx - t * dx) + (L * vy - t * dy) * (L * vy - t * dy)
                       = L * (c * c)) by (unfold t, L, c; ring).
-        rewrite Hid. nia.
+        rewrite Hid. clearbody c t L. clear Hid.
+        replace (r2 * (L * L)) with (L * (r2 * L)) by ring.
+        apply Z.mul_lt_mono_pos_l; assumption.
       * intros [n [d [Hd [Hn H]]]].
         set (e := (d * vx - n * dx) * (d * vx - n * dx) + (d * vy - n * dy) * (d * vy - n * dy)) in *.
         assert (Hid : L * e = (d * c) * (d * c) + (d * t - n * L) * (d * t - n * L))
           by (unfold e, t, L, c; ring).
-        assert (H1 : d * c * (d * c) <= L * e) by nia.
+        clearbody e c t L.
+        assert (H0 : 0 <= (d * t - n * L) * (d * t - n * L)) by apply Z.square_nonneg.
+        assert (H1 : d * c * (d * c) <= L * e) by lia.
         assert (H2 : L * e < L * (r2 * (d * d))) by (apply Z.mul_lt_mono_pos_l; assumption).
-        apply (sq_cancel_lt d); [exact Hd|]. nia.
+        apply (sq_cancel_lt d); [exact Hd|].
+        replace (d * d * (c * c)) with (d * c * (d * c)) by ring.
+        apply (Z.mul_lt_mono_pos_l L); [exact HLpos|].
+        replace (L * (r2 * L * (d * d))) with (L * (L * (r2 * (d * d)))) by ring.
+        assert (H3 : L * (d * c * (d * c)) <= L * (L * e)) by (apply Z.mul_le_mono_nonneg_l; lia).
+        assert (H4 : L * (L * e) < L * (L * (r2 * (d * d)))) by (apply Z.mul_lt_mono_pos_l; lia).
+        lia.
 Qed.
 
 (* seg_dist2 returns the squared distance as a fraction: it is attained on the segment and no
@@ -420,7 +430,9 @@ Proof.
         set (e := (d * vx - n * dx) * (d * vx - n * dx) + (d * vy - n * dy) * (d * vy - n * dy)) in *.
         assert (Hid : L * e = (d * c) * (d * c) + (d * t - n * L) * (d * t - n * L))
           by (unfold e, t, L, c; ring).
-        nia.
+        clearbody e c t L.
+        assert (H0 : 0 <= (d * t - n * L) * (d * t - n * L)) by apply Z.square_nonneg.
+        replace (c * c * (d * d)) with (d * c * (d * c)) by ring. lia.
       * exists t, L. split; [lia|]. split; [lia|].
         unfold t, L, c. ring.
 Qed.
